@@ -45,7 +45,7 @@ def run(job):
 if __name__ == '__main__':
     jobs = []
     for d in sys.argv[1:]:
-        for diff in sorted(glob.glob(os.path.join(d, '*.diff'))):
+        for diff in sorted(glob.glob(os.path.join(os.path.abspath(d), '*.diff'))):
             files = re.findall(r'^\+\+\+ b/(\S+)', open(diff).read(), re.M)
             pids = []
             for f, ps in FILE2PROPS:
